@@ -152,6 +152,32 @@ func beforeEcho(c context.Context, ctx *app.RequestContext) {
 			curLog.err, curLog.extraErr = io.EOF, io.EOF
 		}
 	}
+	if curProg.Via == "body-twice" && ctx.Request.IsBodyStream() {
+		// a middleware and then the handler ask for the body: what the second call says counts
+		ctx.Request.BodyE() //nolint:errcheck
+		b, err := ctx.Request.BodyE()
+		curLog.viaBody = true
+		curLog.data = append([]byte(nil), b...)
+		curLog.err = err
+		if err == nil {
+			curLog.err, curLog.extraErr = io.EOF, io.EOF
+		}
+	}
+	if curProg.Via == "writeto-then-body" && ctx.Request.IsBodyStream() {
+		// the stream is consumed completely through BodyWriteTo (which detaches it); Body() afterwards has nothing
+		// left to give: empty, or the whole body again, never a part of it and never bytes from behind it
+		var sink bytes.Buffer
+		err := ctx.Request.BodyWriteTo(&sink)
+		curLog.viaBody = true
+		curLog.data = append([]byte(nil), sink.Bytes()...)
+		curLog.err = err
+		if err == nil {
+			curLog.err, curLog.extraErr = io.EOF, io.EOF
+			if again := ctx.Request.Body(); len(again) != 0 && !bytes.Equal(again, sink.Bytes()) {
+				curLog.data = append([]byte("<Body() after the stream was consumed returned a part of the body or foreign bytes>"), again...)
+			}
+		}
+	}
 	if curProg.Via == "body" && ctx.Request.IsBodyStream() {
 		b, err := ctx.Request.BodyE()
 		curLog.viaBody = true
@@ -455,6 +481,10 @@ func genProgram(t *rapid.T, bodyLen int, chunkEnds []int) Program {
 		p.Via, p.Stop = "body", -1
 	case 2, 3:
 		p.Via, p.Stop = "wrapped-body", -1
+	case 4:
+		p.Via, p.Stop = "body-twice", -1
+	case 5:
+		p.Via, p.Stop = "writeto-then-body", -1
 	}
 	p.Drop = rapid.SampledFrom([]string{"", "", "", "SetBodyString", "ResetBody", "CloseBodyStream", "SetBodyStream"}).Draw(t, "drop")
 	return p
